@@ -53,6 +53,30 @@ def get_env(label: str) -> tuple[Any, M.EnvFacts]:
     return got
 
 
+_SITE_CACHE: dict[str, str] = {}
+
+
+def raise_site(exc: BaseException) -> str:
+    """``relative/file.py:function`` of the innermost library frame (cheap: no source lines)."""
+    import os
+
+    from mc.util import REPO
+
+    best = "?"
+    tb = exc.__traceback__
+    while tb is not None:
+        code = tb.tb_frame.f_code
+        fn = _SITE_CACHE.get(code.co_filename)
+        if fn is None:
+            real = os.path.realpath(code.co_filename)
+            fn = os.path.relpath(real, REPO) if real.startswith(REPO + os.sep) else ""
+            _SITE_CACHE[code.co_filename] = fn
+        if fn.startswith("liquid" + os.sep):
+            best = f"{fn}:{code.co_name}"
+        tb = tb.tb_next
+    return best
+
+
 def _reported(ta: Any) -> dict[str, dict[str, list[Any]]]:
     out: dict[str, dict[str, list[Any]]] = {}
     for field in ("unclosed", "unexpected", "unknown"):
@@ -67,8 +91,6 @@ def evaluate(label: str, source: str, names: Optional[tuple[str, ...]]) -> dict[
     """Run one case.  ``names`` is the abstract token sequence (None for generator programs:
     clause 3 is then not applied)."""
     from liquid.exceptions import LiquidError
-    from mc.util import innermost_repo_frame
-
     env, facts = get_env(label)
     viols: list[dict[str, Any]] = []
     counts: Counter[str] = Counter()
@@ -95,7 +117,7 @@ def evaluate(label: str, source: str, names: Optional[tuple[str, ...]]) -> dict[
                     "case": case}
         raised = type(e).__name__
         feature = "end-tag-with-no-open-block" if M.stray_end(scanned, facts) else "no-stray-end-tag"
-        where = innermost_repo_frame(e)
+        where = raise_site(e)
         viols.append({
             "signature": {"clause": "1-total", "exc": raised, "feature": feature, "where": where, "env": label},
             "what": f"[{label}] analyze_tags_from_string({source!r}) raised {raised}: {str(e)[:80]} at {where}",
@@ -115,6 +137,13 @@ def evaluate(label: str, source: str, names: Optional[tuple[str, ...]]) -> dict[
         counts["strict_parse_non_liquid_exception"] += 1
 
     # ---- clause 2: no false alarms ---------------------------------------------------------
+    if got is not None and parsed == "parse-ok" and M.extraneous_branch(scanned, facts):
+        # if/unless with a branch after its else: the parser discards the extra branch
+        # token by token, whatever it contains; neither the statement nor the docs say what
+        # the analysis may report about tags located in such never-parsed text.
+        counts["unspecified_excluded"] += 1
+        counts["unspecified_excluded:clause2_source_has_extraneous_else_or_elsif_branch"] += 1
+        parsed = "parse-ok-with-discarded-branch"
     if got is not None and parsed == "parse-ok":
         counts["clause2_premise_holds"] += 1
         ctx = M.contexts(tokens, facts) if any(got.values()) else {}
@@ -179,7 +208,7 @@ def evaluate(label: str, source: str, names: Optional[tuple[str, ...]]) -> dict[
         ("raise:" + raised) if got is None else ("reports:" + (rep or "-")),
         "req:" + ("U" if must_unknown else "") + ("C" if must_unclosed else "") if names is not None else "req:n/a",
     ])
-    nontrivial = (parsed == "parse-ok" and len(tokens) > 0 and got is not None) or (
+    nontrivial = (parsed.startswith("parse-ok") and len(tokens) > 0 and got is not None) or (
         got is not None and bool(must_unknown or must_unclosed))
     return {"violations": viols, "counts": counts, "outcome": outcome, "nontrivial": nontrivial, "case": case}
 
@@ -208,8 +237,8 @@ def spaces(tier: str) -> list[dict[str, Any]]:
         seq("default", "A19", range(1, 4), "text")
         seq("default", "A19", range(1, 4), "wc")
         mut("default", "if-for-case", 0, "A19")
-        mut("default", "if-for-case", 1, "A19")
-        mut("default", "if-for", 2, "D4")
+        mut("default", "if-for", 1, "A19")
+        mut("default", "if-for", 2, "D4", (7,))
         gen("default", 2, 2, "full")
         # extra environment
         seq("extra", "A28", range(0, 5))
@@ -218,8 +247,10 @@ def spaces(tier: str) -> list[dict[str, Any]]:
         seq("extra", "A28", range(1, 3), "text")
         seq("extra", "A28", range(1, 3), "wc")
         mut("extra", "if-for-block-translate", 0, "A28")
-        mut("extra", "if-for-block-translate", 1, "D12x")
-        mut("extra", "if-block", 2, "D4x")
+        mut("extra", "if-for-block-translate", 1, "D12x", (7,))
+        mut("extra", "if-block", 1, "D12x", (8,))
+        mut("extra", "block-translate", 1, "D12x", (8,))
+        mut("extra", "if-block", 2, "D4x", (7,))
         mut("extra", "block-translate", 2, "D4x")
         gen("extra", 2, 2, "full")
     else:
@@ -239,7 +270,7 @@ def spaces(tier: str) -> list[dict[str, Any]]:
         seq("extra", "A28", range(1, 4), "text")
         seq("extra", "A28", range(1, 4), "wc")
         mut("extra", "x7", 0, "A28")
-        mut("extra", "x7", 1, "A28")
+        mut("extra", "x7", 1, "D12x")
         mut("extra", "if-for-block-translate", 2, "D6x")
         gen("extra", 3, 3, "core")
         gen("extra", 2, 2, "full")
@@ -351,7 +382,7 @@ class C21(Check):
             if r["nontrivial"] and n_samples < 1 and len(source) > 30:
                 n_samples += 1
                 sample = {"env": label, "source": source, "outcome": r["outcome"]}
-            res.case(nontrivial=[label, source] if r["nontrivial"] else None, outcome=r["outcome"], sample=sample)
+            res.case(nontrivial=(label + "\x00" + source) if r["nontrivial"] else None, outcome=r["outcome"], sample=sample)
             for k, v in r["counts"].items():
                 res.count(k, v)
             for v in r["violations"]:
